@@ -4,6 +4,7 @@ package lang
 
 import (
 	"sort"
+	"strconv"
 	"strings"
 )
 
@@ -98,4 +99,21 @@ func VerifResetGlobals() {
 	objPrototype = nil
 	strPrototype = nil
 	numPrototype = nil
+}
+
+// VerifLex returns the lexer's tokens as "class@pos" strings, class being
+// Ident, Num, Str or the tag name, up to EOF or the first lexical error.
+func VerifLex(src string) ([]string, error) {
+	lex := NewLexer(src)
+	toks := make([]string, 0)
+	for {
+		t, err := lex.Next()
+		if err != nil {
+			return toks, err
+		}
+		if t.Tag == EOF {
+			return toks, nil
+		}
+		toks = append(toks, t.Tag.String()+"@"+strconv.Itoa(t.Pos))
+	}
 }
